@@ -576,12 +576,44 @@ func exec(ctx context.Context, b *backend, o *op) (res map[string]any) {
 	return map[string]any{"err": "unknown-op"}
 }
 
+// infraError recognises failures of the test infrastructure (embedded etcd / miniredis under
+// machine load), which say nothing about the store code.
+func infraError(res map[string]any) bool {
+	c, _ := res["err"].(string)
+	if !strings.HasPrefix(c, "other:") && !strings.HasPrefix(c, "timeout") {
+		return false
+	}
+	for _, m := range []string{"timed out", "deadline exceeded", "timeout", "unavailable", "connection", "too many requests", "leader changed", "i/o"} {
+		if strings.Contains(c, m) {
+			return true
+		}
+	}
+	return false
+}
+
+// runCase executes the sequence; when the infrastructure fails the whole case is re-executed
+// (up to three times) and, if it keeps failing, cut just before the failing operation.
 func runCase(ctx context.Context, e *env, k *kase) {
+	for attempt := 0; attempt < 4; attempt++ {
+		bad := runCaseOnce(ctx, e, k)
+		if bad < 0 {
+			return
+		}
+		if attempt == 3 {
+			k.Ops = k.Ops[:bad]
+			return
+		}
+		time.Sleep(time.Duration(attempt+1) * 500 * time.Millisecond)
+	}
+}
+
+// runCaseOnce returns the index of the first operation hit by an infrastructure failure, or -1.
+func runCaseOnce(ctx context.Context, e *env, k *kase) int {
 	for _, b := range []*backend{e.etcd, e.redis} {
 		b.reset()
 		b.last = ""
 	}
-	for _, o := range k.Ops {
+	for i, o := range k.Ops {
 		o.Impl = map[string]any{}
 		for _, b := range []*backend{e.etcd, e.redis} {
 			var res map[string]any
@@ -589,8 +621,14 @@ func runCase(ctx context.Context, e *env, k *kase) {
 			if kind != "" {
 				res = map[string]any{"err": kind + ":" + msg}
 			}
+			if infraError(res) {
+				return i
+			}
 			entry := map[string]any{"r": res}
 			d := b.dump()
+			if len(d) == 1 && d[0][0] == "!dump-error" {
+				return i
+			}
 			js, _ := json.Marshal(d)
 			if string(js) != b.last {
 				entry["kv"] = d
@@ -599,6 +637,7 @@ func runCase(ctx context.Context, e *env, k *kase) {
 			o.Impl[b.name] = entry
 		}
 	}
+	return -1
 }
 
 // ---------------------------------------------------------------- generator
